@@ -73,6 +73,7 @@ OgreArrayPoolAllocator<DataType, ContainerType, POOL_SIZE> {
                  -> Option<(/*ref:*/ &mut DataType, /*slot_id:*/ u32)> {
         self.alloc_ref()
             .map(|(slot_ref, slot_id)| {
+                #[cfg(feature = "verif")] crate::verif::yield_point("pool.alloc.slot_write");
                 setter(slot_ref);
                 (slot_ref, slot_id)
             })
@@ -102,6 +103,7 @@ OgreArrayPoolAllocator<DataType, ContainerType, POOL_SIZE> {
             unsafe {
                 let pool = &mut *(self.pool.get() as *mut Box<[DataType; POOL_SIZE]>);
                 let slot = pool.get_unchecked_mut(slot_id as usize);
+                #[cfg(feature = "verif")] crate::verif::yield_point("pool.dealloc.drop");
                 ptr::drop_in_place(slot);
             }
         }
